@@ -140,6 +140,39 @@ inline double comp_err(const SU_vector& v, const ref::Mat& expect, int* where = 
   return worst;
 }
 
+
+// diagonal operator classes
+enum HCls { H_DENSE, H_ZERO, H_IDENT, H_FULLDEG, H_PARTDEG, H_NEARDEG, H_INT, H_BIG, H_SMALL, H_SINGLE, NH };
+static const char* hname[] = {"diag-dense", "zero", "identity-only", "fully-degenerate", "partially-degenerate", "nearly-degenerate", "integer", "big", "small", "single-diag-generator"};
+
+inline Vec gen_H(Rng& r, int d, int cls) {
+  Vec h = zero_vec(d);
+  std::vector<ref::real> w(d);
+  switch (cls) {
+    case H_DENSE: h[0] = r.normal(); for (int l = 1; l < d; l++) h[d * l + l] = r.normal(); break;
+    case H_ZERO: break;
+    case H_IDENT: h[0] = r.normal() * 5; break;
+    case H_FULLDEG: { ref::real e = r.normal(); for (auto& x : w) x = e; h = ref::to_components(diag_mat(w)); for (int l = 1; l < d; l++) h[d * l + l] = 0; } break;
+    case H_PARTDEG: { for (auto& x : w) x = r.range(-2, 2); int i = r.pick(d), j = r.pick(d); w[i] = w[j]; h = ref::to_components(diag_mat(w)); } break;
+    case H_NEARDEG: { ref::real e = r.normal(); for (auto& x : w) x = e + r.normal() * std::pow(10.0, -r.range(6, 14)); h = ref::to_components(diag_mat(w)); } break;
+    case H_INT: h[0] = r.range(-3, 3); for (int l = 1; l < d; l++) h[d * l + l] = r.range(-3, 3); break;
+    case H_BIG: { double s = std::pow(10.0, r.range(3, 8)); for (int l = 1; l < d; l++) h[d * l + l] = r.normal() * s; } break;
+    case H_SMALL: { double s = std::pow(10.0, -r.range(3, 12)); for (int l = 1; l < d; l++) h[d * l + l] = r.normal() * s; } break;
+    case H_SINGLE: { int l = r.range(1, d - 1); h[d * l + l] = r.coin() ? 1.0 : r.normal(); } break;
+  }
+  return h;
+}
+inline double Wscale(int d, const Vec& h) { double w = 0; for (int l = 1; l < d; l++) w += 2 * std::fabs(h[d * l + l]); return w; }
+
+// levels h_k of a diagonal operator with the identity component removed: only differences of
+// levels matter for evolution, and dropping c0 avoids cancelling it in the reference
+inline std::vector<ref::real> levels_traceless(int d, Vec h) {
+  h[0] = 0;
+  ref::Mat MH = ref::from_components(d, h);
+  std::vector<ref::real> w(d);
+  for (int i = 0; i < d; i++) w[i] = MH(i, i).real();
+  return w;
+}
 }  // namespace alg
 
 // one entry point per property, defined in cXX.cpp
